@@ -14,7 +14,7 @@ CONE = ["Proofs/WalkProofs.v", "Proofs/ShuffleProofs.v", "Proofs/VTProofs.v", "P
 MODEL_FUNCTIONS = ["decode", "set_vt", "number_to_bit", "calculus_multiplication", "calculus_addition"]
 RULE = ("graphs: generated coding graphs (t = 1..4), arbitrary arc subsets and the complete graph of order 1..3 (thorough 4), any "
         "start vertex (dead ones included); strings: walks, walks with 1..3 random edits anywhere, uniformly random ACGT "
-        "strings, strings with foreign characters (N, lower case, non-ASCII), the empty string; check: absent / right / wrong "
+        "strings, strings with foreign characters (N, lower case, non-ASCII), the empty string; check: absent / right / wrong (lengths 1..70 incl. 31..34 around the 64-bit boundary of 4^(n-1)) "
         "/ wrong length; tables: none / random permutations / malformed rows; both modes; requested lengths around the "
         "carried bits.  Fast-mode cases outside the stated domain (out-degree 3 present, or walkable prefix carrying more "
         "than L bits) are agreement-only.  non-trivial = non-empty string; distinct by payload")
@@ -96,7 +96,8 @@ def payloads(rng, tier):
         cb = carried(rows, v0, s)
         L = max(0, rng.choice([cb, cb, cb + 1, cb + 3, 2 * len(s) + 1, 64, cb - 1]))
         yield "decode", {"rows": rows, "v0": v0, "s": s, "L": L, "faster": faster, "vt": vk, "table": table,
-                         "w": w, "tags": [g, sk, vk, tk], "reuse": rng.random() < 0.5}
+                         "w": w, "tags": [g, sk, vk, tk], "reuse": rng.random() < 0.5,
+                         "vtn": rng.choice([None, None, 1, 2, 8, 16, 31, 32, 33, 34, 40, 64, 70])}
 
 
 def build(stream, p):
@@ -107,14 +108,14 @@ def build(stream, p):
     if p["vt"] != "none":
         base = s if ascii_ok else w
         if p["vt"] == "right":
-            vt = formula(base, 1 + len(base) % 5)
+            vt = formula(base, p.get("vtn") or (1 + len(base) % 5))
         elif p["vt"] == "ofwalk":
             vt = formula(w, 3)
         elif p["vt"] == "wrong":
-            good = formula(base, 4)
+            good = formula(base, p.get("vtn") or 4)
             vt = good[:-1] + NUC[(NUC.index(good[-1]) + 1) % 4]
         else:
-            vt = formula(base, 3) + "A"
+            vt = formula(base, p.get("vtn") or 3) + "A"
     call = enc_call(21, s2c(s), L, gen.enc_acc(rows), v0, int(faster), gen.enc_opt_str(vt), gen.enc_table(table))
     tab = None if table is None else np.array(table, dtype=int)
 
